@@ -124,7 +124,7 @@ fn exh(args: &Args, b: &mut Batcher) {
 }
 
 fn rand_programs(args: &Args, b: &mut Batcher, rng: &mut SmallRng) {
-    let count = if args.thorough { 24000 } else { 700 } / args.shard.1.max(1);
+    let count = if args.thorough { 12000 } else { 700 } / args.shard.1.max(1);
     for i in 0..count {
         let len = match rng.gen_range(0..10) {
             0 => rng.gen_range(200..600),
